@@ -506,6 +506,8 @@ func runC10(p *an.Prog, r *an.Run, tier string) {
 	r.Floor("bigint-mutations", nMut, 10)
 	r.Check(len(bad) == 0, "no-shared-bigint", "repo", token.NoPos, "no in-place big.Int mutation of shallow copies of shared balances", "%s", strings.Join(bad, "; "))
 	checkBigIntOwnership(p, r)
+	// racing withdrawals are serialised by Withdraw's own lock region (C07.exclusive and the rest of the settlement rules)
+	runC07(p, r, tier)
 
 	checkAliasEscapesLock(p, r, "alias-escapes-lock", func(fn *ssa.Function) bool { return true })
 
